@@ -2,9 +2,9 @@ package main
 
 import (
 	"fmt"
-	"reflect"
 	"go/ast"
 	"go/token"
+	"reflect"
 	"sort"
 	"strconv"
 	"strings"
@@ -42,6 +42,7 @@ func init() {
 		c01Service(x)
 		c01Faults(x)
 		c01WatchBackend(x)
+		c01HandOver(x)
 		return nil
 	})
 }
@@ -1113,6 +1114,15 @@ func c01WatchBackend(x *X) {
 		}
 	}
 	x.defStrList("watchBackendLoop", keep)
+	// the alias registration: where it is called and what is done with its result (an expression statement is
+	// rendered "call …": the result is discarded; an assignment or an `if err := …` would show up as such)
+	var regs []string
+	for _, s := range w.out {
+		if strings.Contains(s, ".Register(") {
+			regs = append(regs, s)
+		}
+	}
+	x.defStrList("watchBackendRegister", regs)
 	// nothing else in the function installs a table
 	n := 0
 	ast.Inspect(fd.Body, func(m ast.Node) bool {
@@ -1122,4 +1132,70 @@ func c01WatchBackend(x *X) {
 		return true
 	})
 	x.defNat("watchBackendSetTableCalls", uint64(n))
+}
+
+// ---------------------------------------------------------------------------------------------------------
+// the hand-over from the watchers to the table loop
+// ---------------------------------------------------------------------------------------------------------
+
+// c01HandOver: the watchers hand every text they compute to the table loop with a blocking send. What is pinned is
+// the meaning, not the place: in package registry/consul no channel send is the communication of a select clause
+// (a send that can be skipped: `select { case ch <- v: default: }` or a send racing a timeout), and the table loop
+// receives with a select that has no default clause and no clause other than the two receives.
+func c01HandOver(x *X) {
+	sends, selectSends := 0, 0
+	for _, f := range x.files("registry/consul") {
+		ast.Inspect(f, func(n ast.Node) bool {
+			switch v := n.(type) {
+			case *ast.SendStmt:
+				sends++
+			case *ast.CommClause:
+				if _, ok := v.Comm.(*ast.SendStmt); ok {
+					selectSends++
+				}
+			}
+			return true
+		})
+	}
+	x.defNat("consulSends", uint64(sends))
+	x.defNat("consulSelectSends", uint64(selectSends))
+	// the channels the two watchers send on are the ones WatchServices / WatchManual return, and the watcher is
+	// started with that very channel
+	for _, name := range []string{"WatchServices", "WatchManual"} {
+		fd := x.funcDecl("registry/consul", "be", name)
+		if fd == nil {
+			x.fail("be.%s not found", name)
+			continue
+		}
+		var made, started, returned string
+		ast.Inspect(fd.Body, func(n ast.Node) bool {
+			switch v := n.(type) {
+			case *ast.AssignStmt:
+				if len(v.Lhs) == 1 && len(v.Rhs) == 1 {
+					if c, ok := v.Rhs[0].(*ast.CallExpr); ok && c01Callee(c) == "make" {
+						if id, ok := v.Lhs[0].(*ast.Ident); ok {
+							made = id.Name
+							if len(c.Args) > 1 {
+								made += " buffered"
+							}
+						}
+					}
+				}
+			case *ast.GoStmt:
+				for _, a := range v.Call.Args {
+					if id, ok := a.(*ast.Ident); ok && id.Name == made {
+						started = id.Name
+					}
+				}
+			case *ast.ReturnStmt:
+				if len(v.Results) == 1 {
+					if id, ok := v.Results[0].(*ast.Ident); ok {
+						returned = id.Name
+					}
+				}
+			}
+			return true
+		})
+		x.defBool("handOver"+name+"SameChannel", made != "" && made == started && made == returned)
+	}
 }
